@@ -35,6 +35,7 @@ Ctl &ctl();
 // result of the I/O the worker performs during static initialisation (sim/main/main.cpp)
 const std::string &earlyBytes();
 bool earlyRoundTrip();
+bool earlyCompleted();
 bool linked(); // true when the wrap layer is part of this binary and libstdc++ is routed through it
 
 inline void disarm() {
